@@ -320,6 +320,137 @@ func linearAttempt(c *Ctx) {
 		// and every successful send steps: from the success edge, the back edge carries the stepped counter (checked above by edge enumeration)
 		g.add("LIN", "the counter counts exactly the values sent", good, pickS(good, "i = phi(start, i, i stepped by one on the send-success edge)", why), cnt)
 	}
+	// the goroutine ends (and so closes the channel) only because the context is cancelled or the last value was sent:
+	// with the three ways out cut - the ctx.Done() case, ctx.Err() != nil, the loop guard's exit - no return is reachable
+	if bsl := an.AllInstrs(g.fn, func(in ssa.Instruction) bool { s, ok := in.(*ssa.Select); return ok && s.Blocking }); len(bsl) == 1 && cnt != nil {
+		bs := bsl[0].(*ssa.Select)
+		var cuts []an.EdgeCut
+		if idx := resultOf2(bs, 0); idx != nil {
+			doneIdx := int64(-1)
+			for i, st := range bs.States {
+				if call, ok := st.Chan.(*ssa.Call); ok && call.Call.IsInvoke() && call.Call.Method.Name() == "Done" {
+					doneIdx = int64(i)
+				}
+			}
+			ifs, negs := P.IfsOn(g.fn, func(cond ssa.Value) bool {
+				b, ok := cond.(*ssa.BinOp)
+				return ok && (b.Op == token.EQL || b.Op == token.NEQ) && (b.X == idx || b.Y == idx)
+			})
+			for i, ifi := range ifs {
+				b := stripNotV(ifi.Cond).(*ssa.BinOp)
+				k, isK := constInt(b.Y)
+				if !isK {
+					k, isK = constInt(b.X)
+				}
+				if !isK {
+					continue
+				}
+				eq := 0
+				if b.Op == token.NEQ {
+					eq = 1
+				}
+				if negs[i] {
+					eq = 1 - eq
+				}
+				if k == doneIdx {
+					cuts = append(cuts, cutEdge(ifi, eq))
+				} else if len(bs.States) == 2 {
+					cuts = append(cuts, cutEdge(ifi, 1-eq)) // "it was the other case" (of two): the remaining one is Done
+				}
+			}
+		}
+		for _, in := range an.AllInstrs(g.fn, func(in ssa.Instruction) bool {
+			call, ok := in.(*ssa.Call)
+			return ok && call.Call.IsInvoke() && call.Call.Method.Name() == "Err"
+		}) {
+			ev := in.(*ssa.Call)
+			if ifi, nilSucc, found := g.nilTestOf(isVal(ev)); found {
+				cuts = append(cuts, cutEdge(ifi, 1-nilSucc))
+			}
+		}
+		// a flag that joins "the Done case fired" (a constant) with the outcome of the ctx.Err() test
+		for _, blk := range g.fn.Blocks {
+			if len(blk.Instrs) == 0 {
+				continue
+			}
+			ifi, ok := blk.Instrs[len(blk.Instrs)-1].(*ssa.If)
+			if !ok {
+				continue
+			}
+			c, neg := ifi.Cond, false
+			for {
+				if u, isU := c.(*ssa.UnOp); isU && u.Op == token.NOT {
+					c, neg = u.X, !neg
+					continue
+				}
+				break
+			}
+			ph, isPhi := c.(*ssa.Phi)
+			if !isPhi {
+				continue
+			}
+			// cancelledWhen: the truth value of the flag that means "cancelled", the same on every edge
+			cw, okf := -1, true
+			for _, e := range ph.Edges {
+				this := -1
+				if k, isK := e.(*ssa.Const); isK && k.Value != nil {
+					if k.Value.String() == "true" {
+						this = 1
+					} else {
+						this = 0
+					}
+				} else if bo, isB := e.(*ssa.BinOp); isB && (bo.Op == token.EQL || bo.Op == token.NEQ) && either(bo, func(v ssa.Value) bool {
+					call, isC := v.(*ssa.Call)
+					return isC && call.Call.IsInvoke() && call.Call.Method.Name() == "Err"
+				}, isNilConst) {
+					if bo.Op == token.NEQ {
+						this = 1 // err != nil is true when cancelled
+					} else {
+						this = 0
+					}
+				}
+				if this < 0 || (cw >= 0 && cw != this) {
+					okf = false
+				}
+				cw = this
+			}
+			if !okf || cw < 0 {
+				continue
+			}
+			sx := 1 - cw // successor taken when the flag has the "cancelled" value: true -> 0, false -> 1
+			if neg {
+				sx = 1 - sx
+			}
+			cuts = append(cuts, cutEdge(ifi, sx))
+		}
+		for _, blk := range g.fn.Blocks {
+			if len(blk.Instrs) == 0 {
+				continue
+			}
+			ifi, ok := blk.Instrs[len(blk.Instrs)-1].(*ssa.If)
+			if !ok {
+				continue
+			}
+			b, ok := stripNotV(ifi.Cond).(*ssa.BinOp)
+			if !ok || (b.X != ssa.Value(cnt) && b.Y != ssa.Value(cnt)) {
+				continue
+			}
+			for sx := 0; sx < 2; sx++ {
+				if !ifi.Block().Succs[sx].Dominates(sel.Block()) {
+					cuts = append(cuts, cutEdge(ifi, sx))
+				}
+			}
+		}
+		early := P.PathExists(g.fn, nil, an.IsReturn, nil, func(b *ssa.BasicBlock, i int) bool {
+			for _, c := range cuts {
+				if c(b, i) {
+					return true
+				}
+			}
+			return false
+		})
+		g.add("PATH", "the goroutine ends only on cancellation or after the last value was sent", !early, pickS(!early, "every return lies behind the ctx.Done() case, ctx.Err() != nil or the loop guard's exit", "the goroutine can return - and close the channel - while the context is live and fewer than count values were sent (a give-up path for a slow receiver): the receiver sees a closed channel it must read as cancellation or exhaustion"), bs)
+	}
 	// closed on every path, never twice
 	closesF := P.CallsTo(fn, "builtin:close")
 	closesG := P.CallsTo(g.fn, "builtin:close")
